@@ -14,7 +14,7 @@
    [pq_objs (lpq (getl s l))] = the futures of the waiters queued on lock l. *)
 From Coq Require Import QArith.
 From Asynkit Require Import Base.Prelude Queue.PQ Queue.PosPQ Queue.Exec Sched.Model Sched.Corr
-  Sched.QFacts Sched.LockInv Sched.LockOps Sched.LockLib Sched.LockProofs Sched.LockThms.
+  Sched.QFacts Sched.LockInv Sched.LockOps Sched.LockLib Sched.LockProofs Sched.LockStatic Sched.LockThms.
 Open Scope nat_scope.
 
 (* The inductive invariant (record [Inv], Sched/LockInv.v: I1 ownership bookkeeping,
@@ -31,7 +31,7 @@ Print Assumptions C13_inv.
 
 (* Mutual exclusion, and locked() reflects it: in every reachable state, for every lock l,
    at most one task records l as held and it is the owner; a PriorityTask that owns l
-   records it; for a PriorityLock, locked <-> it has an owner. *)
+   records it; for a PriorityLock, locked <-> it has an owner; nobody records l twice. *)
 Theorem C13_mutex :
   forall prio_loop factor draws lks cds nev acts,
     run_ok (init_st prio_loop factor draws lks cds nev) acts ->
@@ -42,7 +42,8 @@ Theorem C13_mutex :
       (forall t, lowner (getl s l) = Some t -> is_prio_task s t = true ->
                  In l (tholding (gett s t))) /\
       (lkind_ (getl s l) = LPrio ->
-       (llocked (getl s l) = true <-> exists t, lowner (getl s l) = Some t)).
+       (llocked (getl s l) = true <-> exists t, lowner (getl s l) = Some t)) /\
+      (forall t, count_occ Nat.eq_dec (tholding (gett s t)) l <= 1).
 Proof. intros. eapply mutex_reach; eauto. Qed.
 Print Assumptions C13_mutex.
 
@@ -91,6 +92,54 @@ Theorem C13_wake_in_flight :
       exists f, In f (pq_objs (lpq (getl s l))) /\ fdone s f = true.
 Proof. intros. eapply wake_in_flight_reach; eauto. Qed.
 Print Assumptions C13_wake_in_flight.
+
+(* A static class on which the side condition always holds: programs that never call
+   set_result / set_exception on a future ([nosr]: no `Call (OSetResult _ _) _` /
+   `Call (OSetExc _ _) _` anywhere in the tree, children included), spawned and driven by
+   environment actions that do not either and do not acquire from outside a task
+   ([act_static]).  Every harness script without OSetResult/OSetExc denotes such a program
+   (in particular all C13 worker scripts over {acquire, release, sleep(0), wait event} and
+   all environment sequences over {step, cancel, task_throw, task_interrupt, set event}). *)
+Theorem C13_static_side_condition :
+  (forall prio_loop factor draws lks cds nev acts,
+     Forall act_static acts -> run_ok (init_st prio_loop factor draws lks cds nev) acts) /\
+  (forall s : script, script_plain s -> nosr (denote_task s)) /\
+  (forall how c, act_static (ASpawn how c) <-> nosr c) /\
+  (forall op, act_static (ADo op) <->
+     (match op with OSetResult _ _ | OSetExc _ _ => False | _ => True end) /\
+     (match op with OAcquire _ => true | _ => false end) = false).
+Proof.
+  split; [exact run_ok_static_init|]. split; [exact denote_task_nosr|].
+  split; [intros; reflexivity|intros; reflexivity].
+Qed.
+Print Assumptions C13_static_side_condition.
+
+(* hence, unconditionally on that class: the invariant, mutual exclusion and the wake-up
+   in flight *)
+Theorem C13_static :
+  forall prio_loop factor draws lks cds nev acts,
+    Forall act_static acts ->
+    let s := fold_left do_action acts (init_st prio_loop factor draws lks cds nev) in
+    Inv s /\
+    (forall l, l < length (locks s) ->
+       (forall t1 t2, In l (tholding (gett s t1)) -> In l (tholding (gett s t2)) -> t1 = t2) /\
+       (forall t, In l (tholding (gett s t)) -> lowner (getl s l) = Some t) /\
+       (forall t, lowner (getl s l) = Some t -> is_prio_task s t = true -> In l (tholding (gett s t))) /\
+       (lkind_ (getl s l) = LPrio ->
+        (llocked (getl s l) = true <-> exists t, lowner (getl s l) = Some t)) /\
+       (forall t, count_occ Nat.eq_dec (tholding (gett s t)) l <= 1)) /\
+    (forall l f1 f2, In f1 (pq_objs (lpq (getl s l))) -> In f2 (pq_objs (lpq (getl s l))) ->
+       woken s f1 = true -> woken s f2 = true -> f1 = f2) /\
+    (forall l f, lowner (getl s l) <> None -> In f (pq_objs (lpq (getl s l))) -> woken s f = false) /\
+    (forall l, lkind_ (getl s l) = LPrio -> llocked (getl s l) = false ->
+       pq_objs (lpq (getl s l)) <> [] ->
+       exists f, In f (pq_objs (lpq (getl s l))) /\ fdone s f = true).
+Proof.
+  intros until acts. intros H s. destruct (static_reach prio_loop factor draws lks cds nev acts H) as [I W].
+  fold s in I, W. split; [exact I|]. split; [intros l Hl; now apply mutex_of_inv|].
+  split; [intros l; apply (iC1 I l)|]. split; [intros l f Ho; apply (iC2 I l f Ho)|exact W].
+Qed.
+Print Assumptions C13_static.
 
 (* Non-vacuity: a reachable state with an owner and two queued contenders (suspended in
    `await fut` of acquire); a reachable state with a free lock and exactly one woken waiter
